@@ -17,7 +17,9 @@ RULE = ("for each initial content (fixed set + seeded random compositions of the
         "run lists every system call of the snoopyctl process from execve to exit; then the process is re-run once per call and "
         "SIGKILLed on entry to exactly that call (= immediately after the previous one returned), and once per write-type call "
         "(write, pwrite64, openat/creat of the written file, fsync, fdatasync, ftruncate, fchmod, rename*, close, unlink) x "
-        "{ENOSPC, EIO, EDQUOT} with that call failing. Oracle: the preload file afterwards holds exactly the old or exactly the "
+        "{ENOSPC, EIO, EDQUOT} with that call failing; and once per size limit (RLIMIT_FSIZE = 1, 7, 16, half, all-but-one byte of the "
+        "new content) so that the content write genuinely comes back short, and once per cap (1, 7, 16 bytes) with every write() "
+        "transferring at most that many bytes but succeeding. Oracle: the preload file afterwards holds exactly the old or exactly the "
         "new content (absent counts as old when it was absent). non-trivial = crash/fault point at or after the first call that "
         "touches the preload file or its temporary sibling; distinct by (content, op, call index, fault)")
 
@@ -79,6 +81,37 @@ def one_run(ctl, content, action, inject, old, new):
                       {"after": after, "stray": ctl.stray_files()}, {"old": old, "new": new}, key="partial")
 
 
+def short_write_run(ctl, content, action, limit, old, new):
+    """Genuine short writes: RLIMIT_FSIZE (soft, bytes) with SIGXFSZ ignored makes the write crossing the limit return a short
+    count and the next one fail with EFBIG -- the way a full disk, a quota or a size limit really present themselves."""
+    import resource
+    import signal
+    ctl.put(old)
+
+    def pre():
+        signal.signal(signal.SIGXFSZ, signal.SIG_IGN)
+        resource.setrlimit(resource.RLIMIT_FSIZE, (limit, resource.RLIM_INFINITY))
+    subprocess.run([ctl.ctl, action], env=ctl.env, stdin=subprocess.DEVNULL, stdout=subprocess.PIPE, stderr=subprocess.PIPE, timeout=30, preexec_fn=pre)
+    after = ctl.get()
+    if not (after == old or after == new or (old is None and after is None)):
+        raise Failure("preload file is neither the complete old nor the complete new content after `%s` with writes cut short at %d bytes (RLIMIT_FSIZE)" % (action, limit),
+                      {"after": after, "stray": ctl.stray_files()}, {"old": old, "new": new}, key="partial-short")
+
+
+def capped_write_run(ctl, content, action, cap, old, new):
+    """Short writes that SUCCEED (a preloaded shim caps every write() to a regular file at `cap` bytes): a correct
+    write-everything loop still produces the complete new content."""
+    ctl.put(old)
+    env = dict(ctl.env)
+    env["LD_PRELOAD"] = os.path.join(os.path.dirname(os.path.dirname(os.path.abspath(__file__))), "build", "libshortwrite.so")
+    env["SHORTWRITE_CAP"] = str(cap)
+    subprocess.run([ctl.ctl, action], env=env, stdin=subprocess.DEVNULL, stdout=subprocess.PIPE, stderr=subprocess.PIPE, timeout=30)
+    after = ctl.get()
+    if not (after == old or after == new or (old is None and after is None)):
+        raise Failure("preload file is neither the complete old nor the complete new content after `%s` when every write() transfers at most %d bytes" % (action, cap),
+                      {"after": after, "stray": ctl.stray_files()}, {"old": old, "new": new}, key="partial-capped")
+
+
 def plans_for(calls, first_touch, quick):
     """yield (inject expression, nontrivial, label)"""
     for i, (name, ordinal, text) in enumerate(calls):
@@ -124,6 +157,34 @@ def worker(args):
                 if ok and not fails:
                     case["syscalls"] = len(calls)
                     fails.append({"case": case, "what": last.what, "observed": last.observed, "expected": last.expected})
+        # short writes
+        if new is not None and new != old:
+            for limit in sorted({1, max(1, len(new) // 2), max(1, len(new) - 1), 7, 16}):
+                if limit >= len(new):
+                    continue
+                case = {"content": content, "action": action, "short_limit": limit}
+                local.count((content, action, "short", limit), [action, "short-write"], sample=case)
+                try:
+                    short_write_run(ctl, content, action, limit, old, new)
+                except Failure as f:
+                    if local.is_known(f.key):
+                        local.known_hit(f.key, f.what)
+                    elif not any(x["what"].startswith("preload file is neither") and "RLIMIT" in x["what"] for x in fails):
+                        ok, last = confirm(lambda c: short_write_run(ctl, c["content"], c["action"], c["short_limit"], old, new), case)
+                        if ok:
+                            fails.append({"case": case, "what": last.what, "observed": last.observed, "expected": last.expected})
+            for cap in (1, 7, 16):
+                case = {"content": content, "action": action, "write_cap": cap}
+                local.count((content, action, "cap", cap), [action, "capped-write"], sample=case)
+                try:
+                    capped_write_run(ctl, content, action, cap, old, new)
+                except Failure as f:
+                    if local.is_known(f.key):
+                        local.known_hit(f.key, f.what)
+                    elif not any("transfers at most" in x["what"] for x in fails):
+                        ok, last = confirm(lambda c: capped_write_run(ctl, c["content"], c["action"], c["write_cap"], old, new), case)
+                        if ok:
+                            fails.append({"case": case, "what": last.what, "observed": last.observed, "expected": last.expected})
     return local.export(), fails
 
 
@@ -151,7 +212,12 @@ def main():
         ctx.count("replay-1", ["replay"], sample=case)
         ctx.nontrivial.add("replay-2")
         try:
-            one_run(ctl, case["content"], case["action"], case["inject"], old, new)
+            if "write_cap" in case:
+                capped_write_run(ctl, case["content"], case["action"], case["write_cap"], old, new)
+            elif "short_limit" in case:
+                short_write_run(ctl, case["content"], case["action"], case["short_limit"], old, new)
+            else:
+                one_run(ctl, case["content"], case["action"], case["inject"], old, new)
             print("replay: property holds for this case")
         except Failure as f:
             ctx.violation(case, f.observed, f.expected, f.what)
